@@ -232,6 +232,9 @@ impl Runner {
                         if let Some(p) = first.take() {
                             ev["pre"] = p;
                         }
+                        if let Some(p) = case.get("predict") {
+                            ev["predict"] = p.clone();
+                        }
                         let ticks = self.take_ticks();
                         if !ticks.is_empty() {
                             all_ticks.extend(ticks.iter().cloned());
@@ -353,6 +356,52 @@ impl Runner {
                         }
                     }
                     i += 1;
+                }
+                "grow" => {
+                    // executes up to k steps and reports the largest item seen on EXEC / CODE
+                    let k = act["k"].as_u64().unwrap_or(1000);
+                    let cap = act["cap"].as_u64().unwrap_or(5000) as usize;
+                    let cache = self.iset.cache();
+                    let iset = &mut self.iset;
+                    let mut maxp = 0usize;
+                    let mut maxn = 0usize;
+                    let mut n = 0u64;
+                    let r = catch_unwind(AssertUnwindSafe(|| {
+                        for _ in 0..k {
+                            n += 1;
+                            let done = PushInterpreter::step(&mut st, iset, &cache);
+                            for j in 0..st.exec_stack.size() {
+                                maxp = maxp.max(pushr::push::item::Item::size(st.exec_stack.get(j).unwrap()));
+                            }
+                            for j in 0..st.code_stack.size() {
+                                maxp = maxp.max(pushr::push::item::Item::size(st.code_stack.get(j).unwrap()));
+                            }
+                            for j in 0..st.name_stack.size() {
+                                maxn = maxn.max(st.name_stack.get(j).unwrap().len());
+                            }
+                            if done || maxp > cap || maxn > cap * 200 {
+                                break;
+                            }
+                        }
+                    }));
+                    let mut ev = json!({"id": id, "i": i, "act": act, "ret": {"max_points": clamp_i32(maxp as u128), "max_name": clamp_i32(maxn as u128), "steps": n}});
+                    if let Some(p) = first.take() {
+                        ev["pre"] = p;
+                    }
+                    st.exec_stack.flush();
+                    st.code_stack.flush();
+                    st.name_stack.flush();
+                    match r {
+                        Ok(()) => {
+                            ev["post"] = json!({"none": 0});
+                            writeln!(out, "{}", ev).unwrap();
+                        }
+                        Err(e) => {
+                            ev["post"] = json!({"crash": "panic", "msg": panic_msg(e)});
+                            writeln!(out, "{}", ev).unwrap();
+                        }
+                    }
+                    { crashed = true; break 'acts; }
                 }
                 "parse_summary" => {
                     // for inputs whose tree is too deep to be serialised: crash-freedom and the frame only
